@@ -11,7 +11,9 @@ EXTENDS Integers, Sequences
 (* pools of literal forms per kind (token texts; #1 is always a TGT instance) *)
 Pool(k) ==
   CASE k = "int"  -> <<"0", "7", "-7", "+7", "007", "2147483648", "-9223372036854775806">>
-    [] k = "real" -> <<"0.", "1.5", "-1.5", "+1.5", "1.E5", "1.5E-3", "2.5E+10", "1.0E-300", "123456789.012345", "0.1", "1.E+300">>
+    [] k = "real" -> <<"0.", "1.5", "-1.5", "+1.5", "1.E5", "1.5E-3", "2.5E+10", "1.0E-300", "123456789.012345", "0.1", "1.E+300",
+                     \* below the smallest normalised double (2.2250738585072014E-308): still values of REAL, still 15 digits
+                     "2.E-308", "-1.5E-308", "2.225E-308", "1.E-310">>
     [] k = "num"  -> <<"3.5", "7.", "-2.5E3">>
     [] k = "str"  -> <<"''", "'abc'", "'it''s'", "'back\\\\slash'", "'\\S\\A'", "'\\X\\0A'", "'with #1 (;) /* x */'", "'$'", "'*'">>
     [] k = "bin"  -> <<"\"0\"", "\"0F\"", "\"1ABC\"", "\"3FF\"">>
